@@ -417,6 +417,43 @@ def _shape(acc, t, field, v, width=None):
         acc.seen("intshape", (t, field, "fixed-lead00" if top == 0 else ("fixed-topbit" if top >= 0x80 or (width == 66 and top) else "fixed-mid")))
 
 
+def _input_shapes(acc, kd, exp, kw, container):
+    """which integer shapes the encoders are given (from the key descriptor, i.e. a fact about the grid)"""
+    t = kd["t"]
+    priv = exp["as_private"]
+    acc.seen("structures_expected", (t, exp["top"] or container))
+    if exp["epki"]:
+        w = exp["epki"]
+        acc.seen("prot_req", (t, w["kdf"], w["hash"], w["cipher"]))
+    if t == "RSA":
+        v = dict(kd)
+        if priv:
+            v.update(dp=kd["d"] % (kd["p"] - 1), dq=kd["d"] % (kd["q"] - 1), qinv=KS.nt.inverse(kd["q"], kd["p"]))
+        for f in ("n", "e") + (("d", "p", "q", "dp", "dq", "qinv") if priv else ()):
+            _shape(acc, t, f if container != "openssh" else "mpint-" + f, v[f])
+    elif t == "DSA":
+        for f in ("p", "q", "g", "y") + (("x",) if priv else ()):
+            _shape(acc, t, f if container != "openssh" else "mpint-" + f, kd[f])
+    else:
+        c = kd["curve"]
+        x, y = kd["Q"]
+        if c in KS.WEIER:
+            w_ = R.EC.CURVES[c].size_bytes
+            comp = bool(kw.get("compress", False)) and not priv
+            _shape(acc, c, "x", x, w_)
+            if not comp:
+                _shape(acc, c, "y", y, w_)
+            if priv:
+                _shape(acc, c, "d", kd["d"], w_)
+            else:
+                acc.seen("sec1_prefix", (c, 2 + (y & 1) if comp else 4))
+        elif c in KS.MONT:
+            _shape(acc, c, "u", x, R.RAW_LEN[c])
+        else:
+            _shape(acc, c, "y", y, 32 if c == "ed25519" else 56)
+            acc.seen("intshape", (c, "x-sign", x & 1))
+
+
 def info_comps(info):
     t = info["t"]
     if t == "RSA":
@@ -475,6 +512,8 @@ def rt_case(kd, priv, kw, tape, acc, size=None):
     container = exp["container"]
     pw = kw.get("passphrase")
     text = blob.encode("latin-1") if isinstance(blob, str) else bytes(blob)
+    acc.count("artefacts")
+    _input_shapes(acc, kd, exp, kw, container)
     # ---- (3) the independent reader ----------------------------------------------------
     info = None
     peminfo = {"encrypted": False}
@@ -541,28 +580,6 @@ def rt_case(kd, priv, kw, tape, acc, size=None):
             first = info["point_octets"][0]
             if (first in (2, 3)) != bool(kw.get("compress", False)):
                 viol("export/compress-flag-not-honoured", "point starts with %02x" % first)
-            acc.seen("sec1_prefix", (kd["curve"], first))
-        # integer shapes met (evidence)
-        if not protected and t == "RSA":
-            for f in ("n", "e") + (("d", "p", "q", "dp", "dq", "qinv") if info["priv"] else ()):
-                _shape(acc, t, f if container != "openssh" else "mpint-" + f, info[f])
-        elif not protected and t == "DSA":
-            for f in ("p", "q", "g", "y") + (("x",) if info["priv"] else ()):
-                _shape(acc, t, f if container != "openssh" else "mpint-" + f, info[f])
-        elif not protected and t == "ECC":
-            c = kd["curve"]
-            w_ = R.EC.CURVES[c].size_bytes if c in R.EC.CURVES and c not in KS.EDW else None
-            if c in KS.WEIER:
-                _shape(acc, c, "x", info["Q"][0], w_)
-                if info.get("point_octets") is None or info["point_octets"][0] == 4:
-                    _shape(acc, c, "y", info["Q"][1], w_)
-                if info["priv"]:
-                    _shape(acc, c, "d", info["d"], w_)
-            elif c in KS.MONT:
-                _shape(acc, c, "u", info["Q"][0], R.RAW_LEN[c])
-            else:
-                _shape(acc, c, "y", info["Q"][1], 32 if c == "ed25519" else 56)
-                acc.seen("intshape", (c, "x-sign", info["Q"][0] & 1))
     if pw and exp.get("top") in ("epki",) and info is not None and not protected:
         viol("export/passphrase-given-but-output-in-clear", "no encryption layer found by the independent reader")
     # ---- (1) import with the right passphrase ---------------------------------------------
@@ -594,6 +611,9 @@ def rt_case(kd, priv, kw, tape, acc, size=None):
         alt = (pw + "x", pw[:-1] or "q") if isinstance(pw, str) else (bytes(pw) + b"x", bytes(pw)[:-1] or b"q")
         for wp in alt + (None,):
             acc.count("evaluations")
+            acc.count("wrong_pw_attempts")
+            if gcm:
+                acc.count("wrong_pw_attempts_gcm")
             try:
                 k2 = _import(t, kd, blob, wp, container)
             except DOC_EXC[t]:
@@ -772,6 +792,7 @@ def eq_pair(oa, ob, ka, kb, acc, size=None):
             acc.observe("%s %s %s returns a %s" % (ta, op, tb, type(r).__name__))
         results.append(bool(r))
     acc.seen("classes", ("eq", ta, tb, rel, tuple(results)))
+    acc.count("eq_pairs_expected_%s" % ("equal" if exp else "either" if exp is None else "unequal"))
     if len(results) == 2 and all(isinstance(x, bool) for x in results):
         eqv, nev = results
         acc.count("eq_true" if eqv else "eq_false")
@@ -887,21 +908,19 @@ def run(ctx):
     n = a.n
     d = a.distinct
     cl = d.get("classes", set())
-    ctx.require(n.get("roundtrip_ok", 0) >= 1500 if q else n.get("roundtrip_ok", 0) >= 8000, "too few successful round trips (%d)" % n.get("roundtrip_ok", 0))
+    ctx.require(n.get("artefacts", 0) >= (4000 if q else 12000), "too few exported artefacts (%d)" % n.get("artefacts", 0))
     ctx.require(n.get("refused_documented", 0) >= 100, "documented refusals observed: %d" % n.get("refused_documented", 0))
-    ctx.require(n.get("wrong_pw_refused", 0) >= 3000 and n.get("wrong_pw_refused_gcm", 0) >= 1000 and n.get("no_pw_refused", 0) >= 1000,
-                "wrong-passphrase refusals: %d (GCM %d, none %d)" % (n.get("wrong_pw_refused", 0), n.get("wrong_pw_refused_gcm", 0), n.get("no_pw_refused", 0)))
+    ctx.require(n.get("wrong_pw_attempts", 0) >= 9000 and n.get("wrong_pw_attempts_gcm", 0) >= 3000,
+                "wrong-passphrase attempts: %d (GCM %d)" % (n.get("wrong_pw_attempts", 0), n.get("wrong_pw_attempts_gcm", 0)))
     want_prot = {(t, "pbkdf2", h, c) for t in ("RSA", "DSA", "ECC") for h in HASHES for c in CIPHERS} | \
                 {(t, "scrypt", None, c) for t in ("RSA", "DSA", "ECC") for c in CIPHERS}
     missing = want_prot - d.get("prot_ok", set())
-    # a protection that never round-trips shows up as a violation, not here; the guard is about the grid being run
-    seen_prot = {(c[0], c[5], c[6], c[7]) for c in cl if c[0] in ("RSA", "DSA", "ECC") and len(c) > 7 and c[5]}
-    ctx.require(want_prot <= seen_prot, "protections never exercised: %s" % sorted(want_prot - seen_prot, key=str)[:4])
-    st = d.get("structures", set())
+    ctx.require(want_prot <= d.get("prot_req", set()), "protections never requested: %s" % sorted(want_prot - d.get("prot_req", set()), key=str)[:4])
+    st = d.get("structures_expected", set())
     for need in (("RSA", "pkcs1"), ("RSA", "pkcs8"), ("RSA", "epki"), ("RSA", "spki"), ("RSA", "openssh"), ("DSA", "dsa-openssl"),
                  ("DSA", "pkcs8"), ("DSA", "epki"), ("DSA", "spki"), ("DSA", "openssh"), ("ECC", "ecpriv"), ("ECC", "pkcs8"),
-                 ("ECC", "epki"), ("ECC", "rfc8410"), ("ECC", "spki"), ("ECC", "sec1"), ("ECC", "raw"), ("ECC", "openssh")):
-        ctx.require(need in st, "the independent reader never met structure %s/%s" % need)
+                 ("ECC", "epki"), ("ECC", "spki"), ("ECC", "sec1"), ("ECC", "raw"), ("ECC", "openssh")):
+        ctx.require(need in st, "structure %s/%s never requested" % need)
     ish = d.get("intshape", set())
     for c in KS.WEIER:
         for f in ("x", "y", "d"):
@@ -917,8 +936,11 @@ def run(ctx):
                         "%s %s never seen both with and without a sign octet" % (t_, f))
     pref = d.get("sec1_prefix", set())
     ctx.require(all((c, b) in pref for c in KS.WEIER for b in (2, 3, 4)), "SEC1 prefixes 02/03/04 not all seen on every curve")
-    ctx.require(n.get("eq_true", 0) >= nrows and n.get("eq_false", 0) >= nrows * 10, "equality matrix verdicts: %d True, %d False"
-                % (n.get("eq_true", 0), n.get("eq_false", 0)))
+    ctx.require(n.get("eq_pairs_expected_equal", 0) >= nrows and n.get("eq_pairs_expected_unequal", 0) >= nrows * 10
+                and n.get("eq_pairs_expected_either", 0) >= 2,
+                "equality matrix expectations: %d equal, %d unequal" % (n.get("eq_pairs_expected_equal", 0), n.get("eq_pairs_expected_unequal", 0)))
+    ctx.require(n.get("eq_pairs_expected_equal", 0) + n.get("eq_pairs_expected_unequal", 0) + n.get("eq_pairs_expected_either", 0) == nrows * nrows,
+                "equality matrix incomplete")
     rels = {c[3] for c in cl if c[0] == "eq"}
     ctx.require({"same", "different", "privacy", "cross-type", "either"} <= rels, "equality relations seen: %s" % sorted(rels))
     ctx.require(len(cl) >= 300, "fewer than 300 behaviour classes observed (%d)" % len(cl))
@@ -938,8 +960,10 @@ def run(ctx):
             "wrong_passphrases": "passphrase + 'x', passphrase without its last octet, none",
             "equality_objects": nrows, "equality_pairs": nrows * nrows,
         },
-        "verdicts": {k: n.get(k, 0) for k in ("roundtrip_ok", "refused_documented", "refused_unsupported", "unsupported_accepted",
-                                              "wrong_pw_refused", "wrong_pw_refused_gcm", "no_pw_refused", "eq_true", "eq_false")},
+        "verdicts": {k: n.get(k, 0) for k in ("artefacts", "roundtrip_ok", "refused_documented", "refused_unsupported", "unsupported_accepted",
+                                              "wrong_pw_attempts", "wrong_pw_refused", "wrong_pw_refused_gcm", "no_pw_refused", "eq_true", "eq_false",
+                                              "eq_pairs_expected_equal", "eq_pairs_expected_unequal", "eq_pairs_expected_either")},
+        "structures_met_by_independent_reader": sorted("%s/%s" % x for x in d.get("structures", ())),
         "protections_roundtripped": len(d.get("prot_ok", ())),
         "protections_missing_roundtrip": sorted(missing, key=str)[:6],
         "integer_shapes_seen": len(ish),
